@@ -157,6 +157,9 @@ class RulesMixin:
             e = z3.Const(nm, PairSeq)
             ctx.inputs[nm] = e
             return PList(sym=SymSeq(e, "pair"))
+        if ty.startswith("objs "):
+            # a list of any length of objects of one modelled class
+            return SObj("pyvc:ObjList", {"elem_ty": "obj " + ty[5:].strip()}, tag=name)
         if ty in ("strs", "bstrs"):
             nm = ctx.fresh_name(name)
             e = z3.Const(nm, StrSeq)
@@ -533,6 +536,15 @@ class RulesMixin:
 
         if name in models.EXC_ALIASES:
             return models.EXC_ALIASES[name]
+        import importlib
+
+        for modname in ("hypercorn.utils", "hypercorn.protocol.h11", "hypercorn.protocol.events"):
+            try:
+                m = importlib.import_module(modname)
+            except Exception:
+                continue
+            if hasattr(m, name):
+                return getattr(m, name)
         raise ContractError(f"unknown exception class {name}")
 
     def apply_contract(self, fc: FnContract, args, kwargs, fr):
@@ -915,6 +927,9 @@ class RulesMixin:
             elif isinstance(v, BoundMethod):
                 stack.append(v.obj)
             elif isinstance(v, Closure):
+                if id(v) in seen:
+                    continue
+                seen[id(v)] = v
                 f = v.frame
                 while f is not None:
                     stack.extend(f.locals.values())
